@@ -10,6 +10,7 @@ using namespace vf;
 
 // rank -> concrete value per comparator flavour
 struct Big { long long v; char pad[40]; Big() : v(0) {} Big(long long x) : v(x) {} };  // forces the pointer tree in LoserTreeSwitch
+VF_DECOY_ORDER(Big, v)
 struct LessBig { bool operator()(const Big& a, const Big& b) const { return a.v < b.v; } };
 struct GreaterBig { bool operator()(const Big& a, const Big& b) const { return a.v > b.v; } };
 struct WeakBig { bool operator()(const Big& a, const Big& b) const { return a.v / 10 < b.v / 10; } };
